@@ -349,6 +349,204 @@ def operator_init(tree, site, T):
             f"  match default_op_fn with Some v => v | None => {dop} end.\n")
 
 
+# ----------------------------------------------------------------------------------------------
+# S10b: the views of a manager (round 4): who writes the object's state, how the xarray table is labelled, how
+# format_table reads it.  Everything is an explicit list of accepted statement shapes (fail closed).
+# ----------------------------------------------------------------------------------------------
+def class_methods(tree, cls, T):
+    for n in tree.body:
+        if isinstance(n, ast.ClassDef) and n.name == cls:
+            return {m.name: m for m in n.body if isinstance(m, ast.FunctionDef)}
+    raise T.Unsupported("class " + cls + " not found")
+
+
+def body_of(fn, T):
+    return [st for st in fn.body if not T.is_docstring(st)]
+
+
+def writes_state(fn):
+    """source of the first statement of `fn` that (re)binds or mutates an attribute of self, or None"""
+    for n in ast.walk(fn):
+        if isinstance(n, ast.Attribute) and isinstance(n.ctx, (ast.Store, ast.Del)) and isinstance(n.value, ast.Name) and n.value.id == "self":
+            return "self." + n.attr
+        if isinstance(n, ast.Subscript) and isinstance(n.ctx, (ast.Store, ast.Del)) and any(
+                isinstance(x, ast.Name) and x.id == "self" for x in ast.walk(n.value)):
+            return ast.unparse(n)
+        if isinstance(n, ast.Call):
+            f = n.func
+            if isinstance(f, ast.Name) and f.id in ("setattr", "delattr") and n.args and isinstance(n.args[0], ast.Name) and n.args[0].id == "self":
+                return ast.unparse(n)
+            if isinstance(f, ast.Attribute) and f.attr in ("update", "pop", "clear", "setdefault", "popitem", "append", "extend", "insert", "__setitem__") \
+                    and any(isinstance(x, ast.Name) and x.id == "self" for x in ast.walk(f.value)):
+                return ast.unparse(n)
+            if isinstance(f, ast.Attribute) and f.attr in ("_make_xr_table", "__init__") and isinstance(f.value, ast.Name) and f.value.id == "self":
+                return ast.unparse(n)
+        if isinstance(n, (ast.Global, ast.Nonlocal)):
+            return ast.unparse(n)
+    return None
+
+
+def str_list(e, consts, T):
+    """a list of string literals, given literally or through a module-level / local name"""
+    if isinstance(e, ast.Name) and e.id in consts:
+        e = consts[e.id]
+    if isinstance(e, (ast.List, ast.Tuple)) and e.elts and all(isinstance(x, ast.Constant) and isinstance(x.value, str) for x in e.elts):
+        return [x.value for x in e.elts]
+    raise T.Unsupported("list of string literals expected: " + T.src(e))
+
+
+def coq_strs(xs):
+    return "[" + "; ".join('"%s"' % x for x in xs) + "]"
+
+
+def manager_views(tree, site, T):
+    basic = class_methods(tree, "BasicContingencyManager", T)
+    binary = class_methods(tree, "BinaryContingencyManager", T)
+    consts = {}
+    for st in tree.body:
+        if isinstance(st, ast.Assign) and len(st.targets) == 1 and isinstance(st.targets[0], ast.Name) and isinstance(st.value, (ast.List, ast.Tuple)):
+            consts[st.targets[0].id] = st.value
+    # ---- 1. only the constructors (and _make_xr_table, called by them alone) write the state of a manager ----
+    for cls, meths in (("BasicContingencyManager", basic), ("BinaryContingencyManager", binary)):
+        for name, fn in meths.items():
+            if name in ("__init__", "_make_xr_table"):
+                continue
+            w = writes_state(fn)
+            if w:
+                raise T.Unsupported(f"{cls}.{name} changes the state of the manager: {w}")
+    b = [T.src(st) for st in body_of(basic["__init__"], T)]
+    if b[-2:] != ["self.counts = counts", "self._make_xr_table()"] or any("self." in x for x in b[:-2]):
+        raise T.Unsupported("BasicContingencyManager.__init__ does not end in `self.counts = counts; self._make_xr_table()`")
+    b = [T.src(st) for st in body_of(binary["__init__"], T)]
+    if b[-2:] != ["self.counts = self._get_counts()", "self._make_xr_table()"] or any("self.counts" in x or "xr_table" in x for x in b[:-2]):
+        raise T.Unsupported("BinaryContingencyManager.__init__ does not end in `self.counts = self._get_counts(); self._make_xr_table()`")
+    if [T.src(st) for st in body_of(basic["get_counts"], T)] != ["return self.counts"]:
+        raise T.Unsupported("get_counts is not `return self.counts`")
+    if [T.src(st) for st in body_of(basic["get_table"], T)] != ["return self.xr_table"]:
+        raise T.Unsupported("get_table is not `return self.xr_table`")
+    for n in ("get_counts", "get_table", "format_table", "_make_xr_table"):
+        if n in binary:
+            raise T.Unsupported("BinaryContingencyManager overrides " + n)
+    if [T.src(st) for st in body_of(binary["transform"], T)] != [
+            "cd = self._get_counts(reduce_dims=reduce_dims, preserve_dims=preserve_dims)", "return BasicContingencyManager(cd)"]:
+        raise T.Unsupported("transform is not `cd = self._get_counts(reduce_dims=..., preserve_dims=...); return BasicContingencyManager(cd)`")
+    # ---- 2. key order of the dict _get_counts builds ----
+    keys = None
+    gc = body_of(binary["_get_counts"], T)
+    for st in gc:
+        if isinstance(st, ast.Assign) and T.src(st.targets[0]) == "cd" and isinstance(st.value, ast.Dict):
+            keys = [k.value for k in st.value.keys if isinstance(k, ast.Constant) and isinstance(k.value, str)]
+            if len(keys) != len(st.value.keys):
+                raise T.Unsupported("_get_counts: non-literal key")
+        elif isinstance(st, ast.Assign) and isinstance(st.targets[0], ast.Subscript) and T.src(st.targets[0].value) == "cd":
+            k = st.targets[0].slice
+            if keys is None or not (isinstance(k, ast.Constant) and isinstance(k.value, str)):
+                raise T.Unsupported("_get_counts: " + T.src(st))
+            keys.append(k.value)
+    if keys is None or T.src(gc[-1]) != "return cd":
+        raise T.Unsupported("_get_counts does not build and return the dict `cd`")
+    # ---- 3. _make_xr_table: labels and values of the 'contingency' dimension, as functions of the counts dict ----
+    sym = {}          # local name -> 'empty' | 'keys' | 'values' | ('lit', [...])
+    labels = values = None
+    stored = False
+
+    def seq(e):
+        t = T.src(e)
+        if isinstance(e, ast.Name) and e.id in sym:
+            return sym[e.id]
+        if t in ("list(self.counts.keys())", "list(self.counts)", "self.counts.keys()", "[*self.counts]"):
+            return "keys"
+        if t in ("list(self.counts.values())", "self.counts.values()"):
+            return "values"
+        return ("lit", str_list(e, consts, T))
+    for st in body_of(basic["_make_xr_table"], T):
+        if stored:
+            raise T.Unsupported("_make_xr_table: statement after self.xr_table is stored")
+        if isinstance(st, ast.Assign) and len(st.targets) == 1 and isinstance(st.targets[0], ast.Name) and T.src(st.value) == "[]":
+            sym[st.targets[0].id] = "empty"
+        elif isinstance(st, ast.For) and T.src(st.iter) == "self.counts.items()" and isinstance(st.target, ast.Tuple) and len(st.target.elts) == 2 \
+                and all(isinstance(x, ast.Name) for x in st.target.elts) and not st.orelse:
+            kv = {st.target.elts[0].id: "keys", st.target.elts[1].id: "values"}
+            for a in st.body:
+                c = a.value if isinstance(a, ast.Expr) else None
+                if not (isinstance(c, ast.Call) and isinstance(c.func, ast.Attribute) and c.func.attr == "append" and isinstance(c.func.value, ast.Name)
+                        and sym.get(c.func.value.id) == "empty" and len(c.args) == 1 and isinstance(c.args[0], ast.Name) and c.args[0].id in kv):
+                    raise T.Unsupported("_make_xr_table loop body: " + T.src(a))
+                sym[c.func.value.id] = kv[c.args[0].id]
+        elif isinstance(st, ast.Assign) and isinstance(st.targets[0], ast.Name) and isinstance(st.value, ast.Call) and T.src(st.value.func) == "xr.concat":
+            c = st.value
+            if len(c.args) != 1 or [(k.arg, T.src(k.value)) for k in c.keywords] != [("dim", "'contingency'")]:
+                raise T.Unsupported("xr.concat call: " + T.src(c))
+            values = seq(c.args[0])
+            sym[st.targets[0].id] = "table"
+        elif isinstance(st, ast.Assign) and isinstance(st.targets[0], ast.Subscript) and sym.get(T.src(st.targets[0].value)) == "table" \
+                and T.src(st.targets[0].slice) == "'contingency'":
+            labels = seq(st.value)
+        elif isinstance(st, ast.Assign) and T.src(st.targets[0]) == "self.xr_table" and isinstance(st.value, ast.Name) and sym.get(st.value.id) == "table":
+            stored = True
+        else:
+            raise T.Unsupported("_make_xr_table: " + T.src(st)[:80])
+    if not stored or values != "values" or labels is None or labels in ("values", "empty", "table"):
+        raise T.Unsupported("_make_xr_table does not store the concatenated values of the counts dict with labels")
+    lab = "(map fst counts)" if labels == "keys" else coq_strs(labels[1])
+    # ---- 4. format_table: the four cells of the 2x2 frame in reading order ----
+    ft = body_of(basic["format_table"], T)
+    want_tail = ["df = pd.DataFrame(confusion_matrix.astype(int), columns=[positive_value_name + ' Observed', negative_value_name + ' Observed'], "
+                 "index=[positive_value_name + ' Forecast', negative_value_name + ' Forecast'])",
+                 "df['Total'] = df.sum(axis=1)", "df.loc['Total'] = df.sum(axis=0)", "return df"]
+    if len(ft) != 6 or T.src(ft[0]) != "table = self.xr_table" or [T.src(x) for x in ft[2:]] != want_tail:
+        raise T.Unsupported("format_table: unexpected statements around the 2x2 reshape")
+    br = ft[1]
+    if not (isinstance(br, ast.If) and T.src(br.test) == "table.shape == (5,)" and len(br.orelse) == 2 and T.src(br.orelse[1]) == "return self.get_table()"):
+        raise T.Unsupported("format_table: single-table test")
+    local = dict(consts)
+    cells = None
+    for st in br.body:
+        if isinstance(st, ast.Assign) and isinstance(st.targets[0], ast.Name) and isinstance(st.value, (ast.List, ast.Tuple)) and st.targets[0].id != "confusion_matrix":
+            local[st.targets[0].id] = st.value
+        elif isinstance(st, ast.Assign) and T.src(st.targets[0]) == "confusion_matrix":
+            v = st.value       # np.array(<cells>).reshape((2, 2))
+            if not (isinstance(v, ast.Call) and isinstance(v.func, ast.Attribute) and v.func.attr == "reshape" and T.src(v.args[0]) == "(2, 2)"
+                    and isinstance(v.func.value, ast.Call) and T.src(v.func.value.func) == "np.array" and len(v.func.value.args) == 1):
+                raise T.Unsupported("format_table: " + T.src(v))
+            c = v.func.value.args[0]
+
+            def cell(e, var=None, val=None):
+                if isinstance(e, ast.Subscript) and T.src(e.value) == "table":
+                    return f"by_pos {int_const(e.slice, T)} table"
+                if isinstance(e, ast.Call) and T.src(e.func) == "table.sel" and not e.args and len(e.keywords) == 1 and e.keywords[0].arg == "contingency":
+                    k = e.keywords[0].value
+                    if var is not None and isinstance(k, ast.Name) and k.id == var:
+                        return f'by_label "{val}" table'
+                    if isinstance(k, ast.Constant) and isinstance(k.value, str):
+                        return f'by_label "{k.value}" table'
+                raise T.Unsupported("format_table cell: " + T.src(e))
+            if isinstance(c, ast.List):
+                cells = [cell(e) for e in c.elts]
+            elif isinstance(c, ast.ListComp) and len(c.generators) == 1 and not c.generators[0].ifs and isinstance(c.generators[0].target, ast.Name):
+                g = c.generators[0]
+                cells = [cell(c.elt, g.target.id, k) for k in str_list(g.iter, local, T)]
+            else:
+                raise T.Unsupported("format_table cells: " + T.src(c))
+        else:
+            raise T.Unsupported("format_table: " + T.src(st)[:80])
+    if cells is None or len(cells) != 4:
+        raise T.Unsupported("format_table: four cells expected")
+    by_label = all(x.startswith("by_label") for x in cells)
+    return (PRELUDE +
+            "(* key order of the dict built by BinaryContingencyManager._get_counts *)\n"
+            f"Definition gen_count_keys : list string := {coq_strs(keys)}.\n"
+            "(* BasicContingencyManager._make_xr_table: (label, value) along the 'contingency' dimension, for a counts dict given as its item list *)\n"
+            f"Definition gen_table_of_counts {{A : Type}} (counts : list (string * A)) : list (string * A) :=\n  combine {lab} (map snd counts).\n"
+            "(* BasicContingencyManager.format_table: the cells [[a, b], [c, d]] of the 2x2 frame (rows: forecast yes / no, columns: observed yes / no) *)\n"
+            f"Definition gen_format_reads_by_label : bool := {'true' if by_label else 'false'}.\n"
+            f"Definition gen_format_cells {{A : Type}} (table : list (string * A)) : list (option A) :=\n  [{'; '.join(cells)}].\n"
+            "(* checked on the source text: only __init__ / _make_xr_table (called by the constructors alone) bind self.counts and self.xr_table;\n"
+            "   no other method of the two managers assigns, deletes or mutates an attribute of self; get_counts / get_table return them;\n"
+            "   transform = BasicContingencyManager(self._get_counts(reduce_dims, preserve_dims)) *)\n"
+            "Definition gen_manager_state_written_by_constructors_only : bool := true.\n")
+
+
 SITES = [
     dict(id="C08.modes", group="C08_discretise", kind="custom", fn=mode_tables, file="processing/discretise.py", func="INEQUALITY_MODES"),
     dict(id="C08.discretise", group="C08_discretise", kind="custom", fn=comparative_discretise, file="processing/discretise.py",
@@ -361,4 +559,6 @@ SITES = [
          func="ThresholdEventOperator.make_event_tables", method="make_event_tables", name="gen_make_event_tables"),
     dict(id="C08.event_manager", group="C08_contingency", kind="custom", fn=event_tables, file="categorical/contingency_impl.py",
          func="ThresholdEventOperator.make_contingency_manager", method="make_contingency_manager", name="gen_make_contingency_manager"),
+    dict(id="C08.views", group="C08_views", kind="custom", fn=manager_views, file="categorical/contingency_impl.py",
+         func="BasicContingencyManager._make_xr_table / format_table / BinaryContingencyManager.transform", name="gen_table_of_counts"),
 ]
